@@ -26,8 +26,8 @@ open PyPhysim.Proto
     unpacked value is the *exact rational value* of the Python number (int or
     binary64), so two values are equal here iff Python's `==` says so (`2 == 2.0`,
     neighbouring doubles differ) and the order is numpy's sort order.
-    Line-protocol invariant: both lists are sorted by (unique) name, which is
-    how the code itself enumerates unpacked parameters. -/
+    The lists may be in any order (a Python dict); every function that depends on
+    the order of the parameters works on `Params.norm`, the name-sorted lists. -/
 structure Params where
   fixed : List (String × Int)
   unp : List (String × List Rat)
@@ -270,13 +270,29 @@ def insertUniq (x : Rat) : List Rat → List Rat
 /-- `np.union1d` on numeric arrays: sorted, duplicates (exactly equal values only) removed -/
 def union1d (a b : List Rat) : List Rat := (a ++ b).foldr insertUniq []
 
-/-- `combine_simulation_parameters` -/
-def combineParams (p1 p2 : Params) : Except PyErr Params :=
+/-- insert by name into a list sorted by name (`<` on `String` is the lexicographic order of the
+    Unicode code points, i.e. the order of Python's `sorted()` on `str`) -/
+def insertByName {α : Type} (e : String × α) : List (String × α) → List (String × α)
+  | [] => [e]
+  | x :: xs => if e.1 < x.1 then e :: x :: xs else x :: insertByName e xs
+
+/-- `sorted(names)`: how `unpacked_parameters`, `get_unpacked_params_list` and `get_pack_indexes`
+    all enumerate the unpacked parameters, whatever the insertion order of the dictionary -/
+def sortByName {α : Type} (l : List (String × α)) : List (String × α) := l.foldr insertByName []
+
+/-- the parameters with both lists in `sorted()` order of the names -/
+def Params.norm (p : Params) : Params := ⟨sortByName p.fixed, sortByName p.unp⟩
+
+/-- `combine_simulation_parameters` on name-sorted parameters -/
+def combineParamsSorted (p1 p2 : Params) : Except PyErr Params :=
   if p1.fixed.map (·.1) ≠ p2.fixed.map (·.1) ∨ p1.unp.map (·.1) ≠ p2.unp.map (·.1) then
     .error .RuntimeError
   else if p1.fixed ≠ p2.fixed then .error .RuntimeError
   else .ok { fixed := p1.fixed,
              unp := List.zipWith (fun a b => (a.1, union1d a.2 b.2)) p1.unp p2.unp }
+
+/-- `combine_simulation_parameters` (the parameter dictionaries may be in any order) -/
+def combineParams (p1 p2 : Params) : Except PyErr Params := combineParamsSorted p1.norm p2.norm
 
 /-- all combinations in the order of `get_unpacked_params_list`
     (`itertools.product`: the first parameter varies slowest) -/
@@ -393,7 +409,7 @@ def combine (m : Mach) (s1 s2 : Nat) : Mach × Option PyErr :=
       let n2 := x2.dict.map (·.1)
       if !(n1.all (n2.contains ·) && n2.all (n1.contains ·)) then (m, some .RuntimeError)
       else
-        match combineRows m x1.dict x2.dict (x1.params.unp.map (·.2)) (x2.params.unp.map (·.2))
+        match combineRows m x1.dict x2.dict (x1.params.norm.unp.map (·.2)) (x2.params.norm.unp.map (·.2))
                 (product (p.unp.map (·.2))) n1 with
         | .error e => (m, some e)
         | .ok rows =>
